@@ -1204,27 +1204,66 @@ def run_recio(ctx, runs, steps, every):
     return stats
 
 
-def run_commitio(ctx, runs, steps, profile="crash"):
-    """Every backend call of random histories must be a behaviour of Commit.tla (CommitTrace.tla)"""
+def resize_design(ctx):
+    """Resize.tla: the file grows and shrinks while commits and crashes go on; two seeded-bad variants"""
+    tlc_check(ctx, "Resize", "MC_Resize.cfg", workers=6, timeout=1200)
+    tlc_expect_violation(ctx, "Resize", "MC_Resize_nogrowsync.cfg", "Safe", workers=2)
+    tlc_expect_violation(ctx, "Resize", "MC_Resize_cutold.cfg", "ReadersWithin", workers=4)
+    if ctx.tier == "thorough":
+        tlc_check(ctx, "Resize", "MC_Resize_shrinkfirst.cfg", workers=6, timeout=1200)
+
+
+def run_commitio(ctx, runs, steps, profile="crash", modules=("CommitTrace", "ResizeTrace")):
+    """Every backend call of random histories must be a behaviour of Commit.tla (CommitTrace.tla) and keep the size
+    discipline of Resize.tla (ResizeTrace.tla)"""
     trace = os.path.join(ctx.work, f"commitio-{profile}.ndjson")
     p = sh([bin_path("commitio"), "--seed", str(ctx.seed), "--runs", str(runs), "--steps", str(steps), "--profile", profile, "--out", trace], timeout=1800)
     stats = json.loads(p.stdout.strip().splitlines()[-1])
     log(f"commitio {profile}: {stats['backend_ops']} backend calls, {stats['header_writes']} header writes, {stats['commits']} commits")
-    ok, info = tlc_trace_generic(ctx, "CommitTrace", trace, timeout=3600)
+    all_lines = [json.loads(l) for l in open(trace)]
+    for module in modules:
+        ok, info = tlc_trace_generic(ctx, module, trace, timeout=3600)
+        if not ok:
+            rec = info["record"]
+            lines = all_lines[: info["line"]]
+            start = max(i for i, l in enumerate(lines) if l["e"] == "reset")
+            shown = {k: v for k, v in lines[-1].items() if k not in ("run", "i")}
+            which = "durability protocol" if module == "CommitTrace" else "size discipline (set_len / region counts / page writes)"
+            what = (f"{which}: backend call {json.dumps(shown)[:300]} (line {info['line'] - start} of history {rec.get('run')}) is not a step "
+                    f"{module.replace('Trace', '.tla')} allows here; the calls before it: {json.dumps([l['e'] for l in lines[-12:-1]])}")
+            sig = "commitio:" + hashlib.sha256(json.dumps([module, lines[start].get("cfg"), [l["e"] for l in lines[start:]]]).encode()).hexdigest()[:16]
+            payload = {"property": ctx.prop, "kind": "commitio", "seed": ctx.seed, "runs": runs, "steps": steps, "profile": profile, "tier": ctx.tier,
+                       "rejected": shown, "lines": lines[start:][-60:], "what": what, "signature": sig}
+            raise Violation(ctx.prop, save_replay(ctx.prop, payload), what, sig)
     ctx.cov["evaluations"] += stats["backend_ops"]
     ctx.notes[f"commit_protocol_{profile}"] = stats
-    if not ok:
-        rec = info["record"]
-        lines = [json.loads(l) for l in open(trace).read().splitlines()[: info["line"]]]
-        start = max(i for i, l in enumerate(lines) if l["e"] == "reset")
-        shown = {k: v for k, v in lines[-1].items() if k not in ("run", "i")}
-        what = (f"durability protocol: backend call {json.dumps(shown)[:300]} (line {info['line'] - start} of history {rec.get('run')}) is not a step "
-                f"Commit.tla allows here; the calls before it: {json.dumps([l['e'] for l in lines[-12:-1]])}")
-        sig = "commitio:" + hashlib.sha256(json.dumps([lines[start].get("cfg"), [l["e"] for l in lines[start:]]]).encode()).hexdigest()[:16]
-        payload = {"property": ctx.prop, "kind": "commitio", "seed": ctx.seed, "runs": runs, "steps": steps, "profile": profile, "tier": ctx.tier,
-                   "rejected": shown, "lines": lines[start:][-60:], "what": what, "signature": sig}
-        raise Violation(ctx.prop, save_replay(ctx.prop, payload), what, sig)
     ctx.cov["traces_validated_against_impl"] += stats["runs"]
+    if "ResizeTrace" in modules:
+        # the binding has teeth: a growing set_len whose sync is removed makes the next header write name space that is not durable
+        cur, done = None, False
+        for i, l in enumerate(all_lines):
+            if l["e"] == "reset":
+                cur = l["len"]
+            if l["e"] == "setlen":
+                if l["len"] > cur and all_lines[i + 1]["e"] == "sync":
+                    j = i + 2
+                    while all_lines[j]["e"] not in ("sync", "hdr", "reset"):
+                        j += 1
+                    if all_lines[j]["e"] == "hdr":
+                        btrace = trace + ".mut"
+                        with open(btrace, "w") as f:
+                            for r in all_lines[:i + 1] + all_lines[i + 2:]:
+                                f.write(json.dumps(r) + "\n")
+                        ok2, info2 = tlc_trace_generic(ctx, "ResizeTrace", btrace)
+                        if ok2 or info2["line"] != j:
+                            raise ToolError("self-test failed: ResizeTrace accepts a grow without its sync")
+                        done = True
+                        break
+                cur = l["len"]
+        grows = sum(1 for l in all_lines if l["e"] == "setlen")
+        ctx.notes[f"resize_{profile}"] = {"set_len_calls": grows, "grow_without_sync_rejected": done}
+        if done:
+            ctx.notes.setdefault("binding_selftests", []).append("ResizeTrace rejects a trace with the sync after a growing set_len removed")
     return stats
 
 
@@ -1236,6 +1275,7 @@ def check_C01(ctx):
         run_commitio(ctx, tiered(ctx, 4, 40), tiered(ctx, 200, 400), profile=profile)
     if st0["commits"] < 100:
         raise ToolError(f"vacuity: too few commits in the protocol traces: {st0}")
+    resize_design(ctx)
     run_opencases(ctx, tiered(ctx, (512,), (512, 1024, 4096)))
     run_recio(ctx, tiered(ctx, 4, 24), tiered(ctx, 80, 200), tiered(ctx, 5, 7))
     runs, steps = tiered(ctx, (12, 150), (60, 250))
@@ -1513,6 +1553,10 @@ def check_C20(ctx):
     run_readonly_strace(ctx)
     run_contract_race(ctx)
     run_contract_cut(ctx)
+    # "never shrinks it below a page it still uses": Resize.tla (ReadersWithin; the variant that cuts below the superseded commit
+    # is caught) and the trim rule on every set_len of growing / shrinking / compacting histories
+    resize_design(ctx)
+    run_commitio(ctx, tiered(ctx, 4, 30), tiered(ctx, 200, 400), profile="crashcompact", modules=("ResizeTrace",))
     ctx.assumptions += ["the read-only database is observed through strace on a real file (redb offers no read-only open on a custom backend)",
                         "calls that were already in flight when close() begins are not distinguished from calls that begin after it returned: the "
                         "monitor is sequentially consistent (one mutex)"]
@@ -1756,6 +1800,10 @@ def check_C11(ctx):
     # design: a crash inside any critical section of the page-ownership model, recovery = rebuild from the durable commit
     tlc_check(ctx, "PagerCrash", "MC_PagerCrash.cfg", workers=8, timeout=3600)
     tlc_expect_violation(ctx, "PagerCrash", "MC_PagerCrash_bad.cfg", "Owner1", workers=4)
+    # the size of the file: layout rebuilt from the length on a recovery, counts trusted after a clean close (Resize.tla), and
+    # the discipline that makes this safe observed on every backend call of histories that grow, shrink and compact
+    resize_design(ctx)
+    run_commitio(ctx, tiered(ctx, 4, 30), tiered(ctx, 200, 400), profile="crashcompact", modules=("ResizeTrace",))
     st = run_crash(ctx, tiered(ctx, 10, 50), tiered(ctx, 140, 250), extra=["--second-every", str(tiered(ctx, 31, 11))], recover_every=tiered(ctx, 3, 4))
     run_kv_walk(ctx, "reopen", tiered(ctx, 24, 240), tiered(ctx, 500, 1500), page_sizes="512,1024,4096", caches="1048576,0")
     run_kv_walk(ctx, "reopen", tiered(ctx, 6, 60), 800, page_sizes="512", caches="1048576", tag="reopen-regions", extra=["--region-size", "65536"], nkeys=200)
@@ -1766,7 +1814,10 @@ def check_C11(ctx):
     ctx.assumptions += ["crash images per the storage model of C01; the accounting of the recovered database is taken on a sample of the images "
                         "(every 31st in quick, every 7th in thorough), check_integrity() on all of them"]
     return dict(level="fault_enumeration", exhaustive=False,
-                rule="design: PagerCrash.tla = Pager.tla plus a crash inside any critical section, recovery rebuilding the allocator "
+                rule="design: Resize.tla (file length vs region counts vs layout in memory across grow / shrinking commit / clean close / crash: "
+                     "every open finds a layout that covers the commits it may serve; two seeded-bad variants caught) and its discipline checked on "
+                     "every backend call of compacting histories (ResizeTrace.tla); the layout adopted by real opens is judged by RecoverTrace.tla. "
+                     "PagerCrash.tla = Pager.tla plus a crash inside any critical section, recovery rebuilding the allocator "
                      "state from the durable commit's trees and pending-free tables: Owner1 / Pinned / AllocRecordsOk / DurableIntact in the "
                      "recovered state and everything reachable from it (811 590 states); the variant that forgets the pending-free "
                      "tables is caught. code: every way of stopping a history (clean close; crash at every backend operation under 1PC / 2PC / quick-repair commits, with "
